@@ -84,6 +84,52 @@ pub fn carry_words(w: usize) -> Vec<u64> {
     v
 }
 
+/// Operands on which a multiplication by the small odd constant `m`, split at bit `s` into a high and
+/// a low partial product (any "multiply the halves separately" rewrite), has a carry that decides the
+/// result: x = (hi << s) | low with hi*m within m-1 of a multiple of 2^k (k = 3..w-s), low in {all
+/// ones, zero, dense}, and zero or dense bits above bit s+k.
+pub fn mult_boundary_words(w: usize, m: u64, seed: u64) -> Vec<u64> {
+    let mask: u128 = if w == 64 { u64::MAX as u128 } else { (1u128 << w) - 1 };
+    let dense = {
+        let b = bg_bytes(seed, 0x3B0D ^ m, 16);
+        (u64::from_le_bytes(b[..8].try_into().unwrap()) as u128, u64::from_le_bytes(b[8..].try_into().unwrap()) as u128)
+    };
+    let mut v = Vec::new();
+    let js: Vec<u128> = if m <= 16 { (1..m as u128).collect() } else { vec![1, 2, 3, m as u128 / 2, m as u128 - 1] };
+    let dmax = (m.min(9) as i128) - 1;
+    for s in (0..w).step_by(8) {
+        if s + 3 > w {
+            continue;
+        }
+        for k in 3..=(w - s) {
+            for &j in &js {
+                let base = (j << k) / m as u128;
+                for d in -dmax..=dmax {
+                    let hi = ((base as i128 + d) as u128) & ((1u128 << k) - 1);
+                    for low in [(1u128 << s) - 1, 0, dense.0 & ((1u128 << s) - 1)] {
+                        for above in [0u128, dense.1] {
+                            let x = ((above << (s + k)) | (hi << s) | low) & mask;
+                            v.push(x as u64);
+                        }
+                    }
+                }
+            }
+        }
+    }
+    v.sort();
+    v.dedup();
+    v
+}
+
+/// inverse of the odd `a` modulo 2^w
+pub fn inv_odd(a: u64, w: usize) -> u64 {
+    let mut x: u64 = 1;
+    for _ in 0..7 {
+        x = x.wrapping_mul(2u64.wrapping_sub(a.wrapping_mul(x)));
+    }
+    if w == 64 { x } else { x & ((1u64 << w) - 1) }
+}
+
 /// Numbers of leading all-zero source blocks to try: every count up to 12 and around every power of
 /// two up to `max` (any bound on redraws).
 pub fn zero_block_counts(max: usize) -> Vec<usize> {
